@@ -105,7 +105,22 @@ class World:
 
             def build():
                 w = SuperAgentWrapper(self.sim, super_agent_mapping=first)
-                w.super_agent_mapping = mapping
+                if script.get("remap") == "inplace":
+                    # ... or the dictionary the wrapper hands out is EDITED IN PLACE (its lists too) until it says what
+                    # the measured mapping says, and assigned back: the setter rebuilds from what it is given, it
+                    # does not compare it with what it had
+                    m = w.super_agent_mapping
+                    for k in list(m):
+                        if k not in mapping:
+                            del m[k]
+                    for k, v in mapping.items():
+                        if k in m:
+                            m[k][:] = v
+                        else:
+                            m[k] = list(v)
+                    w.super_agent_mapping = m
+                else:
+                    w.super_agent_mapping = mapping
                 return w
         st, val = mgr.guarded(build)
         if st != "ok":
@@ -116,10 +131,15 @@ class World:
             # the order of the wrapper's agents: super agents in mapping order, then the uncovered
             # agents in the iteration order of a Python set -- read here, at run time
             keys = list(self.w.agents.keys())
-            assert keys[:len(groups)] == [sid(i) for i in range(len(groups))], keys
-            self.uncovered = [self.sim.idx[k] for k in keys[len(groups):]]
-            self.outer_ids = keys
-            self.oidx = {k: i for i, k in enumerate(keys)}
+            if keys[:len(groups)] != [sid(i) for i in range(len(groups))] or \
+                    any(k not in self.sim.idx for k in keys[len(groups):]):
+                # the wrapper's agents are not the super agents of its mapping followed by simulation agents: it
+                # cannot be driven; recorded as a construction that crashed (the model builds it)
+                self.w, self.err, self.uncovered = None, "crash", []
+            else:
+                self.uncovered = [self.sim.idx[k] for k in keys[len(groups):]]
+                self.outer_ids = keys
+                self.oidx = {k: i for i, k in enumerate(keys)}
         declared, truthy = [], []
         for i in range(n):
             ag = self.sim.agents[self.sim.ids[i]]
@@ -697,7 +717,9 @@ class SuperProp(core.Prop):
             script = mgr.gen_script(rng, max_agents=5, max_t=6)
             script.pop("undoneAt", None)   # C14 domain: done flags of covered agents are monotone within an episode
             if rng.random() < 0.25:
-                script["remap"] = True          # built with another partition, re-assigned through the setter (World)
+                # built with another partition, re-assigned through the setter (World): a new dictionary, or the old
+                # one edited in place
+                script["remap"] = rng.choice([True, "inplace"])
             script["noms"] = []
             n, learning = script["n"], script["learning"]
             learners = [a for a in range(n) if learning[a]]
